@@ -38,7 +38,8 @@ def run_one(sid, checks):
             q = subprocess.run([os.path.join(vlib.VERIF, "check"), pid, "--tier", "quick"], env=env, cwd=vlib.VERIF,
                                stdout=subprocess.PIPE, stderr=subprocess.STDOUT, text=True)
             viol = [l for l in q.stdout.splitlines() if l.startswith("VIOLATION")]
-            out[pid] = {"exit": q.returncode, "violations": len(viol), "wall_s": round(time.time() - t, 1),
+            key = pid if vlib.seed() == 1 else "%s@seed%d" % (pid, vlib.seed())
+            out[key] = {"exit": q.returncode, "violations": len(viol), "wall_s": round(time.time() - t, 1),
                         "first": (q.stdout.splitlines()[([i for i, l in enumerate(q.stdout.splitlines()) if l.startswith("VIOLATION")] or [0])[0]:][:2]
                                   if viol else q.stdout.splitlines()[-2:])}
     finally:
@@ -84,14 +85,15 @@ def main(args):
                     continue
                 target = json.load(open(os.path.join(SEEDED, sid, "meta.json"))).get("property", sid[:3])
                 results.setdefault(sid, {}).update(out)
-                red = sorted(p for p, r in out.items() if isinstance(r, dict) and r.get("exit") == 1)
-                broken = sorted(p for p, r in out.items() if isinstance(r, dict) and r.get("exit") not in (0, 1))
+                red = sorted(p.split("@")[0] for p, r in out.items() if isinstance(r, dict) and r.get("exit") == 1)
+                broken = sorted(p.split("@")[0] for p, r in out.items() if isinstance(r, dict) and r.get("exit") not in (0, 1))
+                out_by_pid = {p.split("@")[0]: r for p, r in out.items()}
                 print("%s target=%s red=%s%s" % (sid, target, red, (" MACHINERY-ERROR=%s" % broken) if broken else ""))
-                if target in out and out[target].get("exit") != 1:
-                    print("   MISSED by %s: %s" % (target, out[target].get("first")))
+                if target in out_by_pid and out_by_pid[target].get("exit") != 1:
+                    print("   MISSED by %s: %s" % (target, out_by_pid[target].get("first")))
                 if target == "none" and (red or broken):
                     for p in red + broken:
-                        print("   FALSE ALARM / BROKEN on a property-preserving change: %s: %s" % (p, out[p].get("first")))
+                        print("   FALSE ALARM / BROKEN on a property-preserving change: %s: %s" % (p, out_by_pid[p].get("first")))
     finally:
         for f in os.listdir(keep):
             shutil.copy(os.path.join(keep, f), evdir)
